@@ -341,22 +341,25 @@ def tree_cases(prop, tier, hibernation_values=(False,), extra=None):
     two = [("ea", "cma"), ("ea", "local"), ("de", "ea"), ("shade", "cma"), ("lhs", "cma"), ("sobol", "de"), ("ea", "shade")]
     three = [("ea", "ea", "cma"), ("de", "ea", "local"), ("ea", "de", "cma")]
     if tier == "quick":
-        two_shapes, three_shapes, gens, Ls = [[[0]], [[0, 0]]], [[[0], [0]], [[0, 0], [0]]], (2,), (2,)
+        two_shapes, three_shapes = [[[0]], [[0, 0]]], [[[0], [0]], [[0, 0], [0]]]
         two, three = two[:5], three[:2]
     else:
-        two_shapes, three_shapes, gens, Ls = SHAPES_2 + [[[0, 0, 0]]], SHAPES_3, (1, 2, 3), (1, 2, 3)
+        two_shapes, three_shapes = SHAPES_2 + [[[0, 0, 0]]], SHAPES_3
     for hib in hibernation_values:
         for kinds in two:
             for shape in two_shapes:
-                for g in gens:
-                    for L in Ls:
-                        if L < max(len(s) for s in shape):
-                            continue
-                        add(f"step.{'-'.join(kinds)}.shape{shape}.g{g}.L{L}.hib{hib}", kinds=list(kinds), shape=shape, generations=g, L=L,
-                            hibernation=hib)
+                width = max(len(s) for s in shape)
+                combos = [(2, max(2, width))]
+                if tier != "quick":
+                    # thorough: vary generations and the level limit around the base point instead of taking the full product
+                    combos += [(1, max(2, width)), (3, max(2, width))] if shape == [[0, 0]] else []
+                    combos += [(2, L) for L in (1, 3) if L >= width and L != max(2, width)]
+                for g, L in combos:
+                    add(f"step.{'-'.join(kinds)}.shape{shape}.g{g}.L{L}.hib{hib}", kinds=list(kinds), shape=shape, generations=g, L=L,
+                        hibernation=hib)
         for kinds in three:
             for shape in three_shapes:
-                for g in gens[:2]:
+                for g in ((2,) if tier == "quick" else (1, 2)):
                     L = max(2, max(len(s) for s in shape)) if tier == "quick" else 3
                     add(f"step.{'-'.join(kinds)}.shape{shape}.g{g}.L{L}.hib{hib}", kinds=list(kinds), shape=shape, generations=g, L=L,
                         hibernation=hib)
